@@ -241,6 +241,28 @@ func (s *scen) forward(h *held, e msgEnd) error {
 	return err
 }
 
+// forwardShared: like forward, but the application keeps a reference of its own (Clone) to the message it forwards:
+// that reference stays exactly what was received -- header and body -- whatever the send does with the other one.
+func (s *scen) forwardShared(h *held, e msgEnd) error {
+	s.check(h, "before forward")
+	s.drop(h)
+	app(opAppFree, h.m) // from here on the ledger sees plain reference counting: the application's Clone, the send, the two releases
+	h.m.Clone()
+	hdr, body := cp(h.m.Header), cp(h.m.Body)
+	err := e.SendMsg(h.m)
+	if err != nil {
+		s.failedH(h.m, hdr, true, body, err)
+	}
+	if !bytes.Equal(h.m.Header, hdr) || !bytes.Equal(h.m.Body, body) {
+		s.mu.Lock()
+		s.errOK = false
+		s.mu.Unlock()
+		s.note("the reference the application kept of a message it forwarded was changed by SendMsg (err=%v): header %s -> %s, body %s.. -> %s..", err, hx(hdr), hx(h.m.Header), hx(body), hx(h.m.Body))
+	}
+	h.m.Free() // the application's own reference
+	return err
+}
+
 func (s *scen) failed(m *mangos.Message, body []byte, err error) {
 	s.failedH(m, nil, false, body, err)
 }
@@ -608,7 +630,11 @@ func busBounce(s *scen) {
 			continue
 		}
 		s.settle("bounce held")
-		s.forward(h, x)
+		if i%2 == 1 {
+			s.forwardShared(h, x)
+		} else {
+			s.forward(h, x)
+		}
 		s.recv(to)
 		s.settle("bounce delivered")
 	}
